@@ -320,6 +320,11 @@ func (c *ctx) runEngine(e *Engine, onlyCase int) *engineResult {
 		mu.Lock()
 		defer mu.Unlock()
 		if ok {
+			// (an engine borrowed from another property keeps its monitor's own name inside the partial)
+			p.Engine = e.Name
+			for _, v := range p.Violations {
+				v.Engine = e.Name
+			}
 			res.partials = append(res.partials, &p)
 			for _, s := range p.Inconclusive {
 				res.inconcl = append(res.inconcl, fmt.Sprintf("engine %s: %s", e.Name, s))
